@@ -489,13 +489,19 @@ class Ctx:
         timeout_ms = timeout_ms or self.prove_timeout_ms
         ob = {'name': name, 'verdict': None, 'stage': None, 'ms': 0.0, 'info': info}
         self.obligations.append(ob)
+        concrete_fail = False
         if isinstance(phi, (bool, np.bool_)):
-            ob['verdict'] = 'unsat' if phi else 'sat'
-            ob['stage'] = 'concrete'
-            if not phi:
-                ob['model'] = self.model_values()
-                ob['_m'] = self.model
-            return ob
+            if phi or not self.pc:
+                ob['verdict'] = 'unsat' if phi else 'sat'
+                ob['stage'] = 'concrete'
+                if not phi:
+                    ob['model'] = self.model_values()
+                    ob['_m'] = self.model
+                return ob
+            # a concretely false fact on this path: it is a counterexample only if the path itself is feasible with all
+            # definitions (the branch solver may have let an infeasible path through on a timeout) - ask for a model of the path
+            concrete_fail = True
+            phi = SymBool(z3.BoolVal(False))
         goal = as_bool_term(phi)
         neg = z3.simplify(z3.Not(goal))
         if z3.is_false(neg):
@@ -512,7 +518,7 @@ class Ctx:
         r = str(s.check())
         stage = 'abstract'
         m = None
-        if r != 'unsat' and getattr(self, 'use_relaxation', True):
+        if r != 'unsat' and getattr(self, 'use_relaxation', True) and not concrete_fail:
             rr = self.relaxed_check(neg, min(timeout_ms, 5000))
             if rr == 'unsat':
                 r, stage = 'unsat', 'monomial-relaxation'
@@ -522,7 +528,7 @@ class Ctx:
             s = z3.Solver()
             s.set('timeout', timeout_ms)
             s.add(*self.pc)
-            cone = self._cone(neg)
+            cone = self._cone(neg) if not concrete_fail else list(self.defs)
             s.add(*cone)
             s.add(neg)
             apps = _uf_apps([neg] + list(self.pc) + cone)
